@@ -74,7 +74,14 @@ def check_shipped(table, s):
         return [(f'{PROPERTY}/shipped-unreadable', f'{table}: {s!r}: {type(ex).__name__}: {ex}')]
     s0 = s.replace(' ', '')   # blanks never matter (targets.en spells the comma category ', ')
     if t != s0 and '(' + t + ')' != s0:
-        fails.append((f'{PROPERTY}/shipped-roundtrip', f'{table}: {s!r} prints back as {t!r}'))
+        # the same text "up to redundant brackets and blanks": both spellings read, by the harness's own reader, as
+        # one value
+        try:
+            same = read(s) == read(t)
+        except ReadError:
+            same = False
+        if not same:
+            fails.append((f'{PROPERTY}/shipped-roundtrip', f'{table}: {s!r} prints back as {t!r}'))
     try:
         m = read(s)
         if model_of(c) != m:
